@@ -9,7 +9,7 @@ CPP = {1: ["#ifdef FOO"], 2: ["#ifndef FOO"], 3: ["#if defined(A) && B > 2"], 4:
        7: ['#include "file.h"'], 8: ["#define FOO(a) a + 1"], 9: ["#undef FOO"], 10: ['#line 10 "f.f90"'],
        11: ["#error bad thing"], 12: ["#define BAR \\", "   1 + 2"], 13: ["#if defined(A) && \\", "    defined(B)"],
        14: ["#warning careful"], 15: ["#"], 16: ['# 12 "g.f90"'], 17: ["#  endif"], 18: ["#include <sys.h>"]}
-GARB = {1: ["@@", "x", "y"], 2: ["1", "=", "=", "2"], 3: ["then", "end", "do"]}
+GARB = {1: ["@@", "x", "y"], 2: ["1", "=", "=", "2"], 3: ["then", "end", "do"], 4: ["@@", "x", "y  ! a trailing comment"], 5: ["then", "end", "do ! it's"]}
 
 
 def cpp_norm(text):
